@@ -120,6 +120,11 @@ def add_room(
     """
     if "room_old_objective" in model.solver.variables:
         raise ValueError("Model is already adjusted for ROOM.")
+    if any(abs(b) == float("inf") for rxn in model.reactions for b in rxn.bounds):
+        raise ValueError(
+            "ROOM needs finite bounds on all reactions "
+            "(the bounds are used as coefficients of the switch variables)."
+        )
 
     # optimizes if no reference solution is provided
     if solution is None:
